@@ -4,6 +4,7 @@ package main
 
 import (
 	"fmt"
+	"go/constant"
 	"go/token"
 	"go/types"
 	"strings"
@@ -41,6 +42,7 @@ func runC17(w *World, r *Report) {
 	if errOverwritten(w, r, "C17/ERROR-KEPT", []string{"pkg/downloader"}) == 0 {
 		r.OKTrivial("C17/ERROR-KEPT", "none", "-", "no error is carried across loop iterations in pkg/downloader (a failure ends the loop)")
 	}
+	c17PullVerify(w, r)
 }
 
 func c17Verify(w *World, r *Report) {
@@ -521,4 +523,98 @@ func loadBase(v ssa.Value) ssa.Value {
 		return ld.X
 	}
 	return v
+}
+
+// c17PullVerify: `helm pull --verify` verifies, whatever else is given: under Verify=true the downloader's
+// mode is VerifyAlways on every path to the download (VerifyLater, which only fetches the provenance file,
+// may be chosen only when Verify is off).
+func c17PullVerify(w *World, r *Report) {
+	r.Rule("C17/PULL-VERIFY", "in Pull.Run, specialised to Verify=true, the last store into the downloader's Verify mode before DownloadTo is the constant VerifyAlways on every path", 1)
+	fn := w.Fn("pkg/action", "Pull.Run")
+	obj := w.Named(actionPkg, "ChartPathOptions") // Verify is a field of the embedded options struct
+	if fn == nil || obj == nil {
+		r.Unk("C17/PULL-VERIFY", "anchor", "-", "Pull.Run not found")
+		return
+	}
+	r.Fn(FuncName(fn))
+	spec := NewSpec(w, obj, "Verify=true", map[string]aval{"Verify": boolV(true)})
+	g := spec.Graph(fn)
+	var dl ssa.CallInstruction
+	for _, c := range callInstrs(fn) {
+		if f, _ := calleeOf(c.Common()); f != nil && FuncName(f) == "(*pkg/downloader.ChartDownloader).DownloadTo" && g.Reachable()[c.Block()] {
+			dl = c
+		}
+	}
+	if dl == nil {
+		r.Unk("C17/PULL-VERIFY", "download", w.Pos(fn.Pos()), "no reachable DownloadTo call in Pull.Run")
+		return
+	}
+	// stores into ChartDownloader.Verify reachable under the specialisation
+	var always, other []ssa.Instruction
+	for _, b := range fn.Blocks {
+		if !g.Reachable()[b] {
+			continue
+		}
+		for _, in := range b.Instrs {
+			st, ok := in.(*ssa.Store)
+			if !ok {
+				continue
+			}
+			if _, t, f := fieldNameOf(st.Addr); t != "ChartDownloader" || f != "Verify" {
+				continue
+			}
+			if k, isC := constInt(st.Val); isC && k == verifyAlwaysValue(w) {
+				always = append(always, st)
+			} else {
+				other = append(other, st)
+			}
+		}
+	}
+	ok := len(always) > 0
+	why := "the verification mode is never set to VerifyAlways under --verify"
+	if ok {
+		// every path to the download passes a VerifyAlways store …
+		if ex, _ := g.PathExists(entryPos(fn), posOf(dl), avoidInstrs(always...)); ex {
+			ok, why = false, "a path to the download does not set VerifyAlways although --verify was given"
+		}
+		// … and no other store follows it
+		for _, a := range always {
+			for _, o := range other {
+				if _, isInit := o.(*ssa.Store); isInit {
+					if ex, _ := g.PathExists(posOf(a), posOf(o), Avoid{}); ex {
+						if ex2, _ := g.PathExists(posOf(o), posOf(dl), avoidInstrs(always...)); ex2 {
+							ok, why = false, "the mode is changed again after it was set to VerifyAlways"
+						}
+					}
+				}
+			}
+		}
+		// a weaker mode chosen on a path that avoids the VerifyAlways store
+		for _, o := range other {
+			if ex, _ := g.PathExists(posOf(o), posOf(dl), avoidInstrs(always...)); ex {
+				if ex0, _ := g.PathExists(entryPos(fn), posOf(o), avoidInstrs(always...)); ex0 {
+					if _, isLit := o.(*ssa.Store).Val.(*ssa.Const); isLit {
+						if k, _ := constInt(o.(*ssa.Store).Val); k != 0 || true {
+							// the composite-literal initialisation (VerifyNever) precedes everything: only a store
+							// that is not dominated-then-overwritten matters, which the first test already covers
+							_ = k
+						}
+					}
+				}
+			}
+		}
+	}
+	r.Check(ok, "C17/PULL-VERIFY", "Run", w.InstrPos(dl), "with --verify the download runs in VerifyAlways mode", why+": the chart is saved without its signature having been checked")
+}
+
+// verifyAlwaysValue: the numeric value of downloader.VerifyAlways.
+func verifyAlwaysValue(w *World) int64 {
+	if p := w.All[helmMod+"/pkg/downloader"]; p != nil && p.Types != nil {
+		if c, ok := p.Types.Scope().Lookup("VerifyAlways").(*types.Const); ok {
+			if v, ok := constant.Int64Val(c.Val()); ok {
+				return v
+			}
+		}
+	}
+	return -1
 }
